@@ -58,12 +58,19 @@ def gen_case(rnd, idx=None):
     m128 = rnd.random() < 0.3 if idx is None else idx % 4 == 3
     size = rnd.choice((1, 2, 3, 5, 8, 20, 64, 200, 300)) if rnd.random() < 0.85 else rnd.choice((1000, 6912, 20000, 41000))
     org = rnd.choice((32768, 40000, 24576, 49152, 65536 - size, 30000, 25000))
+    low = (not m128) and rnd.random() < 0.12
+    if low:
+        # a program in the display file / right at the start of RAM (START may be exactly 0x4000)
+        org = rnd.choice((16384, 16384, 16385, 22528, 23296 - size if size < 700 else 16384))
+        size = min(size, 23296 - org)           # stay below the printer buffer (the loader's home) and the system variables
     if m128:
         org = rnd.choice((32768, 33000, 40000, 24576))
         size = min(size, 49152 - org)
     org = min(org, 65536 - size)
     data = [rnd.randrange(256) for _ in range(size)]
     start = org + rnd.randrange(size) if rnd.random() < 0.6 else rnd.choice((org, 32768, 50000))
+    if low:
+        start = org if rnd.random() < 0.7 else org + rnd.randrange(size)
     opts = []
     clear = -1
     stack = org
@@ -84,7 +91,7 @@ def gen_case(rnd, idx=None):
             banks = [0, 1, 3, 4, 6, 7]
         if rnd.random() < 0.4:
             opts += ['--loader', str(rnd.choice((24000, 23900, clear + 5)))]
-    elif (k < 0.3 if idx is None else idx % 4 == 2):
+    elif low or (k < 0.3 if idx is None else idx % 4 == 2):
         clear = org - 1 - rnd.randrange(0, 200)
         clear = max(clear, 24000)
         opts += ['-c', str(clear)]
@@ -104,7 +111,7 @@ def gen_case(rnd, idx=None):
         opts += ['-s', str(start)]
     fmt = rnd.choice(('tap', 'tap', 'pzx'))
     return dict(m128=int(m128), size=size, org=org, data=data, start=start, stack=stack, clear=clear, scr=int(scr), want7ffd=want7ffd,
-                banks=banks, opts=opts, fmt=fmt)
+                banks=banks, opts=opts, fmt=fmt, nostart=int(not m128 and rnd.random() < 0.35))
 
 
 def run_case(wd, idx, g, rnd, sim_opts=(), keep_tape=False):
@@ -156,7 +163,12 @@ def run_case(wd, idx, g, rnd, sim_opts=(), keep_tape=False):
     targs = []
     for o in sim_opts:
         targs += ['-c', o]
-    targs += ['--start', str(g['start']), tape, snapf]
+    # with the default (fast-load) configuration the end-of-tape stop rule must find the program's entry point by itself
+    if g.get('nostart') and not sim_opts:
+        targs += [tape, snapf]
+        c['key'] += '/nostart'
+    else:
+        targs += ['--start', str(g['start']), tape, snapf]
     if g['m128']:
         targs = ['-c', 'machine=128'] + targs
     out, e, rc = pipedrv.run_tool(tap2sna.main, targs)
